@@ -348,6 +348,10 @@ func emitImpAfter(cw *caseWriter, prop, f, ty string, before []interface{}, v in
 		}
 		if err := row.ImportAtKey("c", v); err != nil {
 			impl = "err " + classify(err)
+			// what the cell holds after the refusal (null), and what the row prints for it
+			if left, ok := row.Get("c"); ok && left != nil {
+				impl += " left=" + hxs(dynStr(left))
+			}
 			return
 		}
 		got, _ := row.Get("c")
